@@ -27,7 +27,11 @@ func record(dotu bool, o *Outcome) {
 		hx.NonTrivial(o.Op, o.ArgClass, o.Result, dotu, o.Touched)
 	}
 	for i, id := range o.Known {
+		// a listed finding was observed: the clause it breaks (error number /
+		// reply type of this step) is excluded from the verdict, everything
+		// else (tree equality, A unchanged) was still checked
 		hx.Known(id, o.KnownMsg[i])
+		hx.Excluded(id)
 	}
 }
 
@@ -558,7 +562,7 @@ func sampleOf(c *Case) *Case {
 
 func TestPropTwin(t *testing.T) {
 	_ = flag.Set("rapid.steps", "25")
-	hx.Check(t, "twin", hx.N(100, 4000), func(t *rapid.T) {
+	hx.Check(t, "twin", hx.N(100, 2500), func(t *rapid.T) {
 		c := &Case{Dotu: rapid.Bool().Draw(t, "dotu")}
 		pool := drawPool(t)
 		c.Tree = drawTree(t, pool)
